@@ -21,9 +21,21 @@ func skipAddr(v *valueSpec) bool     { return v.addr }
 func skipOpenChan(v *valueSpec) bool { return v.openChan }
 func onlyRef(v *valueSpec) bool      { return !v.ref }
 func isString(v *valueSpec) bool     { return v.ID == "string" }
+func isHuge(v *valueSpec) bool       { return v.huge }
 
-func (t *template) source(val *valueSpec, c chain) string {
+// source renders the program: the chain's prologue, the template's set-up and
+// the operation with the hole filled by the chain's expression.
+func (t *template) source(val *valueSpec, c chain) string { return t.render(val, c, false) }
+
+// baseline renders the same program (same prologue, same set-up) with the
+// hole filled by the plain variable v.
+func (t *template) baseline(val *valueSpec, c chain) string { return t.render(val, c, true) }
+
+func (t *template) render(val *valueSpec, c chain, plain bool) string {
 	pro, expr := c.build()
+	if plain {
+		expr = "v"
+	}
 	var b strings.Builder
 	if val.init != "" {
 		// script-built values: cnt first because the function body names it
@@ -87,7 +99,12 @@ func buildTemplates() []*template {
 	add("add.l.list", "", `@ + [9]`)
 	add("add.r.list", "", `[9] + @`)
 	add("add.r.tslice", "", `[]int64{9} + @`)
-	add("mul.r.str", "", `"ab" * @`)
+	add("mul.r.str", "", `"ab" * @`).Skip = isHuge
+	// comparisons next to 2^53: integers must be compared as integers
+	add("le.l.2p53", "", `@ <= 9007199254740992`)
+	add("gt.l.2p53", "", `@ > 9007199254740992`)
+	add("ge.r.2p53", "", `9007199254740992 >= @`)
+	add("lt.r.2p53", "", `9007199254740992 < @`)
 	add("eq.l.nil", "", `@ == nil`)
 	add("eq.r.nil", "", `nil == @`)
 	add("eq.l.str", "", `@ == "ab"`)
@@ -112,6 +129,8 @@ func buildTemplates() []*template {
 	// in, both roles
 	add("in.item", "", `@ in [3, 5000, 2.5, "ab", true, nil]`)
 	add("in.item7", "", `@ in [7]`)
+	add("in.item.float", "", `@ in [3.0]`)
+	add("in.item.numstr", "", `@ in ["3", "2.5"]`)
 	add("in.list", "", `3 in @`)
 	add("in.list.miss", "", `"zz" in @`)
 	add("in.self", "", `@ in [@]`)
@@ -173,6 +192,8 @@ func buildTemplates() []*template {
 	// switch subject and case
 	add("switch.subject", `r = "none"`, "switch @ {\ncase 3:\n r = \"int\"\ncase 5000:\n r = \"bigint\"\ncase 2.5:\n r = \"float\"\ncase \"ab\":\n r = \"string\"\ncase 7:\n r = \"seven\"\ncase true:\n r = \"bool\"\ncase nil:\n r = \"nil\"\ndefault:\n r = \"default\"\n}\nr")
 	add("switch.case3", `r = "none"`, "switch 3 {\ncase @:\n r = \"hit\"\ndefault:\n r = \"miss\"\n}\nr")
+	add("switch.case3f", `r = "none"`, "switch 3.0 {\ncase @:\n r = \"hit\"\ndefault:\n r = \"miss\"\n}\nr")
+	add("switch.subject.num", `r = "none"`, "switch @ {\ncase 3.0:\n r = \"float\"\ncase \"5000\":\n r = \"numstr\"\ncase 1:\n r = \"one\"\ndefault:\n r = \"default\"\n}\nr")
 	add("switch.case7", `r = "none"`, "switch 7 {\ncase @:\n r = \"hit\"\ndefault:\n r = \"miss\"\n}\nr")
 	add("switch.caseab", `r = "none"`, "switch \"ab\" {\ncase 1, @:\n r = \"hit\"\ndefault:\n r = \"miss\"\n}\nr")
 	add("switch.casenil", `r = "none"`, "switch nil {\ncase @:\n r = \"hit\"\ndefault:\n r = \"miss\"\n}\nr")
@@ -188,9 +209,9 @@ func buildTemplates() []*template {
 	add("coalesce.r", "", `nil ?? @`)
 
 	// make sizes
-	add("make.slice.len", "", `make([]int64, @)`)
-	add("make.slice.cap", "", `make([]int64, 4, @)`)
-	add("make.chan.size", "", `make(chan int64, @)`)
+	add("make.slice.len", "", `make([]int64, @)`).Skip = isHuge
+	add("make.slice.cap", "", `make([]int64, 4, @)`).Skip = isHuge
+	add("make.chan.size", "", `make(chan int64, @)`).Skip = isHuge
 	// channels
 	add("chan.send.value", "k = make(chan interface, 1)", "k <- @\n<-k")
 	add("chan.send.value.typed", "k = make(chan int64, 1)", "k <- @\n<-k")
